@@ -80,4 +80,265 @@ pub mod conc {
         // on a stall the threads are stuck: do not join (the process exits)
         verdict
     }
+
+    // ---------------------------------------------------------------------------------------------
+    // deterministic cooperative scheduler (conc channel): real OS threads, one running at a time,
+    // switching only at lock points (gdsl::verif_hook::lock_point, cfg gdsl_verif)
+    // ---------------------------------------------------------------------------------------------
+    use std::cell::Cell;
+    use std::sync::{Condvar, Mutex};
+
+    #[derive(Clone)]
+    struct Parked {
+        key: String,
+        is_write: bool,
+        held: bool,    // some guard on this lock is alive although every other thread is parked at a lock point
+        blocked: bool, // the acquisition would block right now
+    }
+
+    struct State {
+        parked: Vec<Option<Parked>>,
+        finished: Vec<bool>,
+        turn: Option<usize>,
+        granted: Option<Parked>,
+    }
+
+    struct Sched {
+        m: Mutex<State>,
+        cv: Condvar,
+    }
+
+    thread_local! {
+        static TID: Cell<Option<usize>> = Cell::new(None);
+    }
+
+    fn call_str(n: &[CN], st: &[String]) -> String {
+        let node = |i: &String| n[crate::pusize(i)].clone();
+        match st[0].as_str() {
+            "con" => {
+                node(&st[1]).connect(&node(&st[2]), crate::pu64(&st[3]));
+                "ok".to_string()
+            }
+            "try" => match node(&st[1]).try_connect(&node(&st[2]), crate::pu64(&st[3])) {
+                Ok(()) => "ok".to_string(),
+                Err(_) => "err_exists".to_string(),
+            },
+            "dis" => match node(&st[1]).disconnect(&crate::pu64(&st[2])) {
+                Ok(e) => format!("ok_{}", e),
+                Err(_) => "err_notfound".to_string(),
+            },
+            "iso" => {
+                node(&st[1]).isolate();
+                "ok".to_string()
+            }
+            "conn" => format!("{}", node(&st[1]).is_connected(&crate::pu64(&st[2])) as u8),
+            other => conc_query(other, &node(&st[1])),
+        }
+    }
+
+    /// runs the thread programs under the schedule; returns the observation line
+    pub fn run_sched(nodes: &[CN], progs: &[Vec<Vec<String>>], schedule: &[usize]) -> String {
+        let nt = progs.len();
+        let sched = Arc::new(Sched {
+            m: Mutex::new(State { parked: vec![None; nt], finished: vec![false; nt], turn: None, granted: None }),
+            cv: Condvar::new(),
+        });
+        let s2 = sched.clone();
+        #[cfg(gdsl_verif)]
+        gdsl::verif_hook::install(Some(Arc::new(move |key: &str, is_write: bool, probe: &dyn Fn(bool) -> bool| {
+            let tid = match TID.with(|t| t.get()) {
+                Some(t) => t,
+                None => return,
+            };
+            // park; probes are only meaningful when every other thread is parked too, i.e. once the turn is granted
+            let p = Parked { key: key.to_string(), is_write, held: false, blocked: false };
+            let mut st = s2.m.lock().unwrap();
+            st.parked[tid] = Some(p);
+            s2.cv.notify_all();
+            loop {
+                while st.turn != Some(tid) {
+                    st = s2.cv.wait(st).unwrap();
+                }
+                // all other threads are parked at lock points (or finished): probe now
+                let held = probe(true);
+                let blocked = probe(is_write);
+                if blocked {
+                    if let Some(p) = st.parked[tid].as_mut() {
+                        p.blocked = true;
+                        p.held = held;
+                    }
+                    st.turn = None;
+                    s2.cv.notify_all();
+                    continue;
+                }
+                if let Some(p) = st.parked[tid].as_mut() {
+                    p.held = held;
+                    p.blocked = false;
+                }
+                st.granted = st.parked[tid].take();
+                st.turn = None;
+                s2.cv.notify_all();
+                return;
+            }
+        })));
+        let results: Vec<Arc<Mutex<(Vec<String>, &'static str)>>> = (0..nt).map(|_| Arc::new(Mutex::new((Vec::new(), "running")))).collect();
+        let mut handles = Vec::new();
+        for tid in 0..nt {
+            let my_nodes: Vec<CN> = nodes.to_vec();
+            let prog = progs[tid].clone();
+            let res = results[tid].clone();
+            let sc = sched.clone();
+            handles.push(std::thread::spawn(move || {
+                TID.with(|t| t.set(Some(tid)));
+                let r = std::panic::catch_unwind(std::panic::AssertUnwindSafe(|| {
+                    for st in &prog {
+                        let s = call_str(&my_nodes, st);
+                        res.lock().unwrap().0.push(s);
+                    }
+                }));
+                res.lock().unwrap().1 = if r.is_ok() { "done" } else { "panic" };
+                let mut st = sc.m.lock().unwrap();
+                st.finished[tid] = true;
+                st.parked[tid] = None;
+                sc.cv.notify_all();
+            }));
+        }
+        let mut events: Vec<String> = Vec::new();
+        let mut si = 0usize;
+        let mut verdict = String::new();
+        let mut blocked_rounds = 0usize;
+        loop {
+            // wait until every thread is parked at a lock point or finished
+            let mut st = sched.m.lock().unwrap();
+            let deadline = Instant::now() + Duration::from_secs(4);
+            loop {
+                let quiet = (0..nt).all(|t| st.finished[t] || st.parked[t].is_some()) && st.turn.is_none();
+                if quiet {
+                    break;
+                }
+                let now = Instant::now();
+                if now >= deadline {
+                    verdict = " | HANG (a thread neither reached a lock point nor finished: blocked inside the library)".to_string();
+                    break;
+                }
+                let (g, _) = sched.cv.wait_timeout(st, deadline - now).unwrap();
+                st = g;
+            }
+            if !verdict.is_empty() {
+                break;
+            }
+            if (0..nt).all(|t| st.finished[t]) {
+                break;
+            }
+            let runnable = |t: usize, st: &State| -> bool { !st.finished[t] && st.parked[t].as_ref().map(|p| !p.blocked).unwrap_or(false) };
+            let parked_any = |t: usize, st: &State| -> bool { !st.finished[t] && st.parked[t].is_some() };
+            let mut pick = None;
+            if si < schedule.len() {
+                let want = schedule[si];
+                if want < nt && runnable(want, &st) {
+                    pick = Some(want);
+                }
+            }
+            si += 1;
+            if pick.is_none() {
+                pick = (0..nt).find(|&t| runnable(t, &st));
+            }
+            if pick.is_none() {
+                // only threads that reported "would block" remain: retry them (the holder may have moved on)
+                pick = (0..nt).find(|&t| parked_any(t, &st));
+                for t in 0..nt {
+                    if let Some(p) = st.parked[t].as_mut() {
+                        p.blocked = false;
+                    }
+                }
+            }
+            let tid = match pick {
+                Some(t) => t,
+                None => {
+                    verdict = " | DEADLOCK (every unfinished thread is blocked on a lock)".to_string();
+                    break;
+                }
+            };
+            // grant the turn; the thread probes the lock (everyone else is parked) and either proceeds or reports "would block"
+            st.granted = None;
+            st.turn = Some(tid);
+            sched.cv.notify_all();
+            let deadline = Instant::now() + Duration::from_secs(4);
+            while st.turn.is_some() {
+                let now = Instant::now();
+                if now >= deadline {
+                    verdict = " | HANG (scheduler: granted thread did not respond)".to_string();
+                    break;
+                }
+                let (g, _) = sched.cv.wait_timeout(st, deadline - now).unwrap();
+                st = g;
+            }
+            if !verdict.is_empty() {
+                break;
+            }
+            match st.granted.take() {
+                Some(p) => {
+                    events.push(format!("{}:{}:{}{}", tid, p.key, if p.is_write { "w" } else { "r" }, if p.held { "!held" } else { "" }));
+                }
+                None => {
+                    // the thread found its lock taken: it stays parked as blocked; this schedule slot is not consumed
+                    if si > 0 {
+                        si -= 1;
+                    }
+                    blocked_rounds += 1;
+                    if blocked_rounds > 4 * nt {
+                        verdict = " | DEADLOCK (every unfinished thread is blocked on a lock)".to_string();
+                        break;
+                    }
+                    continue;
+                }
+            }
+            blocked_rounds = 0;
+        }
+        if !verdict.is_empty() {
+            // threads are stuck: the process cannot continue this case
+            let mut s = format!("ev {}", events.join(" "));
+            s.push_str(&verdict);
+            println!("{}", s);
+            return s;
+        }
+        for h in handles {
+            let _ = h.join();
+        }
+        #[cfg(gdsl_verif)]
+        gdsl::verif_hook::install(None);
+        let mut s = String::from("ev");
+        for e in &events {
+            s.push(' ');
+            s.push_str(e);
+        }
+        for (t, r) in results.iter().enumerate() {
+            let g = r.lock().unwrap();
+            s.push_str(&format!(" | t{} {}", t, g.1));
+            for x in &g.0 {
+                s.push(' ');
+                s.push_str(x);
+            }
+        }
+        let mut pois: Vec<u64> = Vec::new();
+        let mut snap = String::new();
+        for n in nodes {
+            let one = std::panic::catch_unwind(std::panic::AssertUnwindSafe(|| conc_snap(n)));
+            match one {
+                Ok(x) => snap.push_str(&format!(" {}", x)),
+                Err(_) => {
+                    pois.push(*n.key());
+                    snap.push_str(&format!(" [{} poisoned]", n.key()));
+                }
+            }
+        }
+        pois.sort();
+        s.push_str(" | pois");
+        for k in pois {
+            s.push_str(&format!(" {}", k));
+        }
+        s.push_str(" | snap");
+        s.push_str(&snap);
+        s
+    }
 }
